@@ -63,12 +63,12 @@ CHECKS['C16'] = ('E-IO', 'engines/e_io.py',
 
 CHECKS['C05'] = ('E-OMP', 'engines/e_omp.py',
     'deterministic simulation: whole Application runs under a seeded option swarm and, through guarded hooks, a simulated OpenMP schedule (drawn chunking, chunk-to-thread assignment, global execution order, cache thread ids); metamorphic relations to a serial linked-list baseline; write-set monitor at chunk boundaries',
-    'seeded search over (problem: free-surface / two-array wall-bounded / periodic incompressible / periodic gas dynamics / adaptive h with nested groups) x --nnps (10 values + knobs) x --cache-nnps x --sort-gids x --reorder-freq x valid/invalid gids x schedule (serial, real OpenMP 1-16 threads, simulated k threads with static/dynamic/guided chunking in a drawn interleaving); R1 bit-identical when sorted, R2 per-particle equality within 1e-7 otherwise, R3 repeat bit-identical; sampled check that a loop chunk writes only its own destination rows. Sampling, not proof.',
-    'simulated schedule has iteration granularity (interference inside one iteration is only covered by real-OpenMP outcome); problems are 5 small set-ups (elliptical drop, cavity, periodic Taylor-Green, periodic gas shock tube, adaptive-h block with a nested update_nnps group) at 25-500 particles, 1-12 steps; hooks H1/H2 in /repo (guarded)',
+    'seeded search over (problem: free-surface / two-array wall-bounded / periodic incompressible / mirror-domain gas dynamics / adaptive h with nested groups / two arrays that start to interact late) x --nnps (10 values + knobs) x --cache-nnps x --sort-gids x --reorder-freq x valid/invalid gids x schedule (serial, real OpenMP 1-16 threads, simulated k threads with static/dynamic/guided chunking in a drawn interleaving); R1 bit-identical when sorted, R2 per-particle equality within 1e-7 otherwise, R3 repeat bit-identical; sampled check that a loop chunk writes only its own destination rows. Sampling, not proof.',
+    'simulated schedule has iteration granularity (interference inside one iteration is only covered by real-OpenMP outcome); problems are 6 small set-ups (elliptical drop, cavity, periodic Taylor-Green, gas shock tube in a mirror domain, adaptive-h block with a nested update_nnps group, fluid block reaching a fixed bed after some steps) at 25-500 particles, 1-12 steps; hooks H1/H2 in /repo (guarded)',
     'DESIGN.md section 3 E-OMP')
 
 CHECKS['C14'] = ('E-INTERP', 'engines/e_interp.py',
-    'deterministic simulation (history dimension): seeded histories of interpolate / move+update / h change / value change / update_particle_arrays / set_interpolation_points on the real Interpolator (5 methods, generated evaluators), each result compared with brute-force defining sums using the Python kernel classes',
+    'deterministic simulation (history dimension): seeded histories of interpolate / move+update / h change / value change / update_particle_arrays / set_interpolation_points on the real Interpolator (5 methods, generated evaluators) and, for 30% of the runs, the same equations through SPHEvaluator, each result compared with brute-force defining sums using the Python kernel classes',
     'seeded search over 1-3 source arrays, dims 1-3, variable h / mass / density, properties missing in some arrays, explicit targets or the automatic grid, periodic domains, kernels, and re-binding/update histories; Shepard / sph / splash / splash_norm against their sums (zero where no source is in range, Shepard bounds), order1 against the solved moment system and linear-field reproduction where well conditioned. Sampling, not proof.',
     'oracle reads the source arrays as they are (ghost creation is C07\'s subject) and the target h the interpolator holds; 1e-9 relative tolerance; order1 skipped where cond(moment) >= 1e6',
     'DESIGN.md section 3 E-INTERP')
@@ -80,7 +80,7 @@ CHECKS['C03'] = ('E-GROUP', 'engines/e_group.py',
     'DESIGN.md section 3 E-GROUP')
 
 CHECKS['C04'] = ('E-INTEG', 'engines/e_integ.py',
-    'deterministic simulation: every shipped integrator and three user-defined ones (tracing steppers, py_stage hooks, two equation sets, update_nnps=False, different / same-class steppers per array, particle-injecting hook) and shipped steppers, compiled by the real generator and stepped serially or under a simulated loop schedule; refinement check against a literal execution of the Python one_timestep (proxy self, Python stepper methods)',
+    'deterministic simulation: every shipped integrator and three user-defined ones (tracing steppers, py_stage hooks, two equation sets, update_nnps=False, different / same-class steppers per array, particle-injecting hook, an empty array) and shipped steppers, compiled by the real generator and stepped serially or under a simulated loop schedule; refinement check against a literal execution of the Python one_timestep (proxy self, Python stepper methods)',
     'seeded search over (integrator x stepper program, particle states with ghost-tagged particles, 1-4 consecutive steps incl. t0 != 0 and non-contiguous times, periodic domain on/off, simulated schedule on/off); exact equality (tracing) or 1e-13 relative (shipped steppers) of the final state and equality of the compute_accelerations(index, update_nnps) / update_domain / post-stage (t + stage_dt, dt, stage) history. Sampling, not proof.',
     'the compiled acceleration evaluator is shared by both sides (C03\'s subject); rigid-body steppers (body-indexed arrays) left out; every run in its own forked child with the cyclic GC off (an unexplained segfault at garbage collection of earlier generated modules was seen once runs shared a process)',
     'DESIGN.md section 3 E-GROUP / section 4 C04')
